@@ -142,6 +142,9 @@ func cUDP(ctx *Ctx, prop string) {
 	if prop == "C03" || prop == "C16" {
 		udpMultiListener(ctx, prop)
 	}
+	if prop == "C16" || prop == "C14" {
+		udpDNSFastClose(ctx, prop)
+	}
 }
 
 // cUDPInto runs n UDP cases and writes their Coq case files starting at the given shard number.
